@@ -13,6 +13,8 @@ import (
 	"strings"
 
 	"github.com/wrgl/wrgl/pkg/local"
+	"github.com/wrgl/wrgl/pkg/objects"
+	"github.com/wrgl/wrgl/pkg/ref"
 )
 
 type c05CLIInput struct {
@@ -145,4 +147,411 @@ func c05CLIEmit(ctx *Ctx, specs []*TableSpec, tags ...string) {
 		in.Branches = append(in.Branches, hxRows(s.Rows))
 	}
 	ctx.Emit("merge-cli", in, c05CLIRun(specs), true, append(tags, "cli", "col-change")...)
+}
+
+// ---------------------------------------------------------------------------------------------
+// C05 through the command line over HISTORIES: the merge laws (merge(base; X, base) = X,
+// merge(base; X, X) = X, order independence, disjoint edits combine) must hold whatever the shape of
+// the commit graph the two arguments of `wrgl merge BRANCH COMMIT` sit in: BRANCH behind COMMIT (the
+// classic fast-forward), BRANCH ahead of COMMIT (the commit merged in is already contained: a stale
+// branch, or a completed merge run again), both on the same commit, diverged, diverged again after a
+// merge; with every fast-forward mode (--ff, --no-ff, --ff-only, default). After every merge step
+// the table of every branch is read back; the Lean driver replays the steps on a model of the graph (nodes with
+// parents and a table) and says what every branch must hold.
+
+type c05HStep struct {
+	Op     string `json:"op"` // commit | branch | merge
+	Branch string `json:"branch"`
+	From   string `json:"from,omitempty"` // branch: the branch it starts at; merge: the commit merged in
+	Table  int    `json:"table"`          // commit: index into tables
+	FF     string `json:"ff,omitempty"`   // merge: "", "ff", "no-ff", "ff-only"
+}
+
+type c05HTable struct {
+	Columns []string   `json:"columns"` // hex
+	Rows    [][]string `json:"rows"`    // hex
+}
+
+type c05HInput struct {
+	Shape   string       `json:"shape"`
+	Specs   []*TableSpec `json:"specs"` // the table of every commit step (for replay)
+	PKNames []string     `json:"pkNames"`
+	Tables  []c05HTable  `json:"tables"`
+	Steps   []c05HStep   `json:"steps"`
+}
+
+type c05HStepRes struct {
+	Res   string                `json:"res"` // ok | err
+	Msg   string                `json:"msg,omitempty"`
+	Heads map[string]*c05HTable `json:"heads,omitempty"` // after a merge step: the export of every branch
+}
+
+// histOwner says which side (0 or 1) may touch a row: new rows carry their side in the key's first
+// character, base rows are split by the parity of their numeric key. Two sides never touch the same
+// row, so whatever they do combines without conflict.
+func histOwner(key string) int {
+	switch {
+	case strings.HasPrefix(key, "8"):
+		return 0
+	case strings.HasPrefix(key, "9"):
+		return 1
+	}
+	n := 0
+	fmt.Sscanf(key, "%d", &n)
+	return n % 2
+}
+
+// histBase: layout 0 key first, 1 composite key in front, 2 key elsewhere, 3 no key.
+func histBase(r *rand.Rand, layout int) *TableSpec {
+	n := 3 + r.Intn(12)
+	var t *TableSpec
+	switch layout {
+	case 0:
+		t = &TableSpec{Columns: []string{"k", "a", "b", "c"}, PK: []string{"k"}}
+	case 1:
+		t = &TableSpec{Columns: []string{"k", "j", "a", "b"}, PK: []string{"k", "j"}}
+	case 2:
+		t = &TableSpec{Columns: []string{"a", "k", "b"}, PK: []string{"k"}}
+	default:
+		t = &TableSpec{Columns: []string{"k", "a", "b"}, PK: []string{}}
+	}
+	for i := 0; i < n; i++ {
+		row := make([]string, len(t.Columns))
+		for c, name := range t.Columns {
+			switch name {
+			case "k":
+				if layout == 1 {
+					row[c] = fmt.Sprintf("%04d", i/2)
+				} else {
+					row[c] = fmt.Sprintf("%04d", i)
+				}
+			case "j":
+				row[c] = []string{"x", "y"}[i%2]
+			default:
+				row[c] = []string{"p", "q", "r", ""}[r.Intn(4)]
+			}
+		}
+		t.Rows = append(t.Rows, row)
+	}
+	return t
+}
+
+// histEdit derives the next table of one side: cell edits and removals of the rows the side owns,
+// and at least one new row (a commit must change something). gen makes new keys and edits distinct
+// between successive derivations.
+func histEdit(r *rand.Rand, t *TableSpec, side, gen int) *TableSpec {
+	out := &TableSpec{Columns: t.Columns, PK: t.PK}
+	kc := 0
+	iskey := map[int]bool{}
+	for c, name := range t.Columns {
+		if name == "k" {
+			kc = c
+		}
+		for _, p := range t.PK {
+			if p == name {
+				iskey[c] = true
+			}
+		}
+	}
+	if len(t.PK) == 0 {
+		iskey[kc] = true
+	}
+	for _, row := range t.Rows {
+		nr := append([]string{}, row...)
+		if histOwner(row[kc]) == side {
+			x := r.Float64()
+			if x < 0.15 {
+				continue
+			}
+			if x < 0.5 {
+				var nonkey []int
+				for c := range nr {
+					if !iskey[c] {
+						nonkey = append(nonkey, c)
+					}
+				}
+				c := nonkey[r.Intn(len(nonkey))]
+				nr[c] = fmt.Sprintf("%s.%d%d", []string{"X", "Y", nr[c]}[r.Intn(3)], side, gen)
+			}
+		}
+		out.Rows = append(out.Rows, nr)
+	}
+	for i, n := 0, 1+r.Intn(2); i < n; i++ {
+		nr := make([]string, len(t.Columns))
+		for c, name := range t.Columns {
+			switch {
+			case name == "k":
+				nr[c] = fmt.Sprintf("%d%d%02d", 8+side, gen, i*50+r.Intn(50))
+			case name == "j":
+				nr[c] = "x"
+			default:
+				nr[c] = []string{"u", "v", ""}[r.Intn(3)]
+			}
+		}
+		out.Rows = append(out.Rows, nr)
+	}
+	return out
+}
+
+// histAddRow appends one row with a fresh key to a table of any column list.
+func histAddRow(r *rand.Rand, t *TableSpec, side, gen int) *TableSpec {
+	out := cloneSpec(t)
+	nr := make([]string, len(out.Columns))
+	for c, name := range out.Columns {
+		if name == "k" {
+			nr[c] = fmt.Sprintf("%d%d%02d", 8+side, gen, r.Intn(100))
+		} else {
+			nr[c] = []string{"w", "t", ""}[r.Intn(3)]
+		}
+	}
+	out.Rows = append(out.Rows, nr)
+	return out
+}
+
+// genC05Hist builds the tables and steps of one history. Table ids: 0 base, 1 / 2 the first commit of
+// side 1 / side 2, 3 / 4 their second commits.
+func genC05Hist(r *rand.Rand, shape int) *c05HInput {
+	pick := func(opts ...string) string { return opts[r.Intn(len(opts))] }
+	anyFF := func() string { return pick("", "ff", "no-ff", "ff-only") }
+	commitFF := func() string { return pick("", "ff", "no-ff") }
+	// shapes 2..4 contain a true three-way merge: key in front (the layouts for which the library-level
+	// cases hold on this tree), same columns with disjoint row edits, or column-changing branches
+	// (and the stale merge over two commits: where the known finding C11-seek-not-input makes the command
+	// take an older shared commit for the base, it runs a three-way merge as well)
+	two := shape == 1 && r.Intn(2) == 0
+	trueMerge := (shape >= 2 && shape <= 4) || two
+	var tabs []*TableSpec
+	family := ""
+	if r.Intn(3) == 0 {
+		tr := genC05CLI(r)
+		tabs = []*TableSpec{tr[0], tr[1], tr[2], histAddRow(r, tr[1], 0, 7), histAddRow(r, tr[2], 1, 7)}
+		family = "col-change"
+	} else {
+		layout := r.Intn(2)
+		if !trueMerge {
+			layout = r.Intn(4)
+		}
+		base := histBase(r, layout)
+		x1, x2 := histEdit(r, base, 0, 1), histEdit(r, base, 1, 1)
+		tabs = []*TableSpec{base, x1, x2, histEdit(r, x1, 0, 2), histEdit(r, x2, 1, 2)}
+		family = []string{"pk-first", "pk-composite", "pk-elsewhere", "keyless"}[layout]
+	}
+	commit := func(b string, t int) c05HStep { return c05HStep{Op: "commit", Branch: b, Table: t} }
+	branch := func(b, from string) c05HStep { return c05HStep{Op: "branch", Branch: b, From: from} }
+	merge := func(b, from, ff string) c05HStep { return c05HStep{Op: "merge", Branch: b, From: from, FF: ff} }
+	steps := []c05HStep{commit("main", 0)}
+	name := ""
+	switch shape {
+	case 0: // BRANCH behind the commit merged in, by one or two commits; then again, then the other way round
+		name = "behind"
+		steps = append(steps, branch("b1", "main"), branch("b2", "main"), commit("b2", 2))
+		if r.Intn(2) == 0 {
+			steps = append(steps, commit("b2", 4))
+		}
+		steps = append(steps, merge("b1", "b2", anyFF()), merge("b1", "b2", anyFF()), merge("b2", "b1", anyFF()))
+	case 1: // BRANCH ahead of the commit merged in (a stale branch), by one or two commits
+		name = "ahead"
+		steps = append(steps, branch("b1", "main"), branch("b2", "main"), commit("b1", 1))
+		if two {
+			steps = append(steps, branch("b3", "b1"), commit("b1", 3))
+		}
+		steps = append(steps, merge("b1", "b2", anyFF()))
+		if two {
+			steps = append(steps, merge("b1", "b3", anyFF()))
+		}
+		steps = append(steps, merge("b1", "main", anyFF()))
+	case 2: // diverged, merged, the same merge run again, then the other branch catches up
+		name = "repeat"
+		steps = append(steps, branch("b1", "main"), commit("b1", 1), branch("b2", "main"), commit("b2", 2),
+			merge("b1", "b2", commitFF()), merge("b1", "b2", anyFF()), merge("b2", "b1", anyFF()), merge("b2", "b1", anyFF()))
+	case 3: // diverged, merged, one side moves on, merged again (the base is now the other side's old head)
+		name = "continue"
+		steps = append(steps, branch("b1", "main"), commit("b1", 1), branch("b2", "main"), commit("b2", 2),
+			merge("b1", "b2", commitFF()), commit("b2", 4), merge("b1", "b2", commitFF()), merge("b1", "b2", anyFF()), merge("b1", "main", anyFF()))
+	case 4: // diverged and fast-forward only: rejected, nothing moves; then merged into the second branch
+		name = "ff-only-rejected"
+		steps = append(steps, branch("b1", "main"), commit("b1", 1), branch("b2", "main"), commit("b2", 2),
+			merge("b1", "b2", "ff-only"), merge("b2", "b1", commitFF()), merge("b2", "b1", anyFF()), merge("b1", "b2", anyFF()))
+	default: // both on the same commit; one moves on; stale merge; catch up
+		name = "same"
+		steps = append(steps, branch("b1", "main"), commit("b1", 1), branch("b2", "b1"), merge("b1", "b2", anyFF()),
+			commit("b1", 3), merge("b1", "b2", anyFF()), merge("b2", "b1", anyFF()), merge("b2", "b1", anyFF()))
+	}
+	return &c05HInput{Shape: name + "/" + family, Specs: tabs, Steps: steps}
+}
+
+const c05HistShapes = 6
+
+func c05HistRun(in *c05HInput) Res {
+	root, err := os.MkdirTemp(privateTmp(), "mhist-")
+	if err != nil {
+		return Err("tmpdir")
+	}
+	defer os.RemoveAll(root)
+	os.Setenv("XDG_CONFIG_HOME", filepath.Join(root, "xdg"))
+	os.Setenv("HOME", root)
+	return Guard(func() Res {
+		dir := filepath.Join(root, "repo", ".wrgl")
+		os.MkdirAll(filepath.Join(root, "repo"), 0755)
+		rd, err := local.NewRepoDir(dir, "")
+		if err != nil {
+			return Err("repodir")
+		}
+		if err := rd.Init(); err != nil {
+			return Err("init")
+		}
+		rd.Close()
+		run := func(args ...string) (string, bool) {
+			out, err := cli(dir, args...)
+			if err != nil {
+				return strings.Join(args, " ") + ": " + out + ": " + err.Error(), false
+			}
+			return out, true
+		}
+		for _, a := range [][]string{{"config", "set", "user.email", "u@example.com"}, {"config", "set", "user.name", "U"}} {
+			if out, ok := run(a...); !ok {
+				return Res{"res": "err", "kind": "setup:" + out}
+			}
+		}
+		cwd, _ := os.Getwd()
+		os.Chdir(root)
+		defer os.Chdir(cwd)
+		short := func(s string) string {
+			s = strings.TrimSpace(s)
+			if len(s) > 160 {
+				s = s[:160]
+			}
+			return s
+		}
+		var branches []string
+		known := map[string]bool{}
+		results := []*c05HStepRes{}
+		for i, st := range in.Steps {
+			sr := &c05HStepRes{Res: "ok"}
+			results = append(results, sr)
+			if !known[st.Branch] {
+				known[st.Branch] = true
+				branches = append(branches, st.Branch)
+			}
+			switch st.Op {
+			case "commit":
+				if st.Table < 0 || st.Table >= len(in.Specs) {
+					return Err("bad-table-index")
+				}
+				s := in.Specs[st.Table]
+				fp := filepath.Join(root, fmt.Sprintf("s%d.csv", i))
+				os.WriteFile(fp, s.CSV(0), 0644)
+				args := []string{"commit", st.Branch, fp, fmt.Sprintf("c%d", i), "-n", "1"}
+				if len(s.PK) > 0 {
+					args = append(args, "-p", strings.Join(s.PK, ","))
+				}
+				if out, ok := run(args...); !ok {
+					return Res{"res": "err", "kind": short(out)}
+				}
+			case "branch":
+				if out, ok := run("branch", "create", st.Branch, st.From); !ok {
+					return Res{"res": "err", "kind": short(out)}
+				}
+			case "merge":
+				args := []string{"merge", st.Branch, st.From, "-n", "1", "-m", fmt.Sprintf("m%d", i)}
+				if st.FF != "" {
+					args = append(args, "--"+st.FF)
+				}
+				out, ok := run(args...)
+				sr.Msg = short(out)
+				if !ok {
+					sr.Res = "err"
+				}
+				heads, kind := c05ReadHeads(dir, branches)
+				if heads == nil {
+					return Err(kind)
+				}
+				sr.Heads = heads
+			default:
+				return Err("bad-step")
+			}
+		}
+		return Ok(map[string]interface{}{"steps": results})
+	})
+}
+
+// c05ReadHeads opens the repository once and reads the table every branch points at (header and rows
+// in stored order): what `wrgl export` would print, without one command per branch.
+func c05ReadHeads(dir string, branches []string) (map[string]*c05HTable, string) {
+	rd, err := local.NewRepoDir(dir, "")
+	if err != nil {
+		return nil, "repodir"
+	}
+	defer rd.Close()
+	db, err := rd.OpenObjectsStore()
+	if err != nil {
+		return nil, "open-objects"
+	}
+	defer db.Close()
+	rs := rd.OpenRefStore()
+	out := map[string]*c05HTable{}
+	for _, b := range branches {
+		sum, err := ref.GetHead(rs, b)
+		if err != nil {
+			return nil, "head-of-" + b
+		}
+		com, err := objects.GetCommit(db, sum)
+		if err != nil {
+			return nil, "commit-of-" + b
+		}
+		tbl, err := objects.GetTable(db, com.Table)
+		if err != nil {
+			return nil, "table-of-" + b
+		}
+		t := &c05HTable{Columns: hxRow(tbl.Columns), Rows: [][]string{}}
+		for _, bs := range tbl.Blocks {
+			rows, _, err := objects.GetBlock(db, nil, bs)
+			if err != nil {
+				return nil, "block-of-" + b
+			}
+			t.Rows = append(t.Rows, hxRows(rows)...)
+		}
+		out[b] = t
+	}
+	return out, ""
+}
+
+func c05HistEmit(ctx *Ctx, in *c05HInput, tags ...string) {
+	in.Tables = nil
+	for _, s := range in.Specs {
+		rows := hxRows(s.Rows)
+		if rows == nil {
+			rows = [][]string{}
+		}
+		in.Tables = append(in.Tables, c05HTable{Columns: hxRow(s.Columns), Rows: rows})
+	}
+	in.PKNames = []string{}
+	if len(in.Specs) > 0 {
+		in.PKNames = append(in.PKNames, hxRow(in.Specs[0].PK)...)
+	}
+	ffs := map[string]bool{}
+	for _, st := range in.Steps {
+		if st.Op == "merge" {
+			ffs[st.FF] = true
+		}
+	}
+	for _, f := range []string{"ff", "no-ff", "ff-only"} {
+		if ffs[f] {
+			tags = append(tags, "--"+f)
+		}
+	}
+	parts := strings.SplitN(in.Shape, "/", 2)
+	tags = append(tags, "cli", "history")
+	for _, p := range parts {
+		if p != "" {
+			tags = append(tags, "hist="+p)
+		}
+	}
+	ctx.Emit("merge-cli-hist", in, c05HistRun(in), true, tags...)
+}
+
+// runC05Hist: the shape is a function of the case index; the tables and flags come from the case's
+// own random stream, after everything the case drew before.
+func runC05Hist(ctx *Ctx) {
+	c05HistEmit(ctx, genC05Hist(ctx.R, (ctx.Idx/20)%c05HistShapes))
 }
